@@ -195,12 +195,13 @@ class LangServer:
         self.root_path = path_from_uri(
             params.get("rootUri") or params.get("rootPath") or ""
         )
-        self._load_config_file()
         # The root is the default source directory, `source_dirs` given on the
         # command line or in the configuration file take its place
         self.default_source_dirs: bool = not self.source_dirs
         if self.default_source_dirs:
             self.source_dirs.add(self.root_path)
+
+        self._load_config_file()
         update_recursion_limit(self.recursion_limit)
         self._resolve_globs_in_paths()
         self._config_logger(request)
@@ -1667,6 +1668,8 @@ class LangServer:
     def _load_config_file_dirs(self, config_dict: dict) -> None:
         self.excl_paths = set(config_dict.get("excl_paths", self.excl_paths))
         self.source_dirs = set(config_dict.get("source_dirs", self.source_dirs))
+        if "source_dirs" in config_dict:
+            self.default_source_dirs = False
         self.incl_suffixes = set(config_dict.get("incl_suffixes", self.incl_suffixes))
         # Update the source file REGEX
         self.FORTRAN_SRC_EXT_REGEX = create_src_file_exts_str(self.incl_suffixes)
